@@ -800,12 +800,12 @@ def to_expr(v):
   return repr(v)
 
 
-def mk_error(name, message, details, user_input=None, **kw):
+def mk_error(name, message, details, **kw):
   import objtypes
   e = objtypes.RaisedException(None)
   e._name, e._message, e.details = name, message, details
-  if 'user_input' in kw or user_input is not None:
-    e.user_input = user_input
+  if 'user_input' in kw:
+    e.user_input = kw['user_input']
   return e
 
 
